@@ -1278,6 +1278,17 @@ class Executor:
             idx = idx[0]
         if len(idx) > a.ndim:
             raise Unsupported('too many indices')
+        if len(idx) == 1 and a.ndim == 1 and isinstance(idx[0], SSlice) \
+                and concrete(idx[0].step) == -1 and idx[0].start is None and idx[0].stop is None:
+            # a[::-1] of a 1-D array, modelled as a value (reads only; it has no identity, so an
+            # in-place write through it is Unsupported rather than silently lost)
+            n = num_term(a.shape[0])
+            af = snap(a)
+            out = SArr(a.shape, lambda p, af=af: af((n - 1 - num_term(p[0]),)), a.kind)
+            fin = snap_finite(a)
+            if fin is not None:
+                out.finite = lambda p, fin=fin: fin((n - 1 - num_term(p[0]),))
+            return out
         offs, shape, keep = [], [], []
         for ax, k in enumerate(idx):
             n = a.shape[ax]
